@@ -32,6 +32,7 @@ type SeqSpec struct {
 	NonTriv   func(w *World) bool
 	MaxDepth  int
 	MaxStates int
+	Chunk     int // states per expansion job (default 6)
 	// Final, if set, runs after the last operation of every history before the fingerprint
 	// (e.g. Close + reopen comparisons that must not influence successors are done in Probe instead).
 }
@@ -188,6 +189,7 @@ func (sp *SeqSpec) runHist(hist []uint8, probe, verbose bool) (res histResult) {
 	}()
 	w = NewWorld(sp.Conf, sp.RC)
 	w.Verbose = verbose
+	w.Hist = sp.names(hist)
 	if sp.Init != nil {
 		sp.Init(w)
 	}
@@ -291,8 +293,11 @@ func RunSeqInto(rep *Report, id, tier string, deadline time.Time) {
 	}
 	pool := NewPool(workers())
 	defer pool.Close()
-	const chunk = 6
 	for si, sp := range specs {
+		chunk := sp.Chunk
+		if chunk <= 0 {
+			chunk = 6
+		}
 		part := map[string]any{"spec": sp.Name, "ops": len(sp.Ops)}
 		mk := func(mode string, hists [][]uint8, verbose bool) Job {
 			return MkJob("seq", seqArg{ID: id, Tier: tier, Spec: si, Mode: mode, Hists: hists, Verbose: verbose})
